@@ -79,9 +79,11 @@ def main():
     snap = SCR + "/verif"
     shutil.rmtree(SCR, ignore_errors=True)
     os.makedirs(snap)
+    frozen = os.environ.get("SEEDEVAL_SNAP")       # a snapshot of the machinery taken earlier (blind evaluation)
+    src = frozen or VERIF
     for part in ("lean", "tools"):
-        sh(f"rsync -a --exclude __pycache__ {VERIF}/{part}/ {snap}/{part}/")
-    shutil.copy(VERIF + "/known_findings.json", snap + "/known_findings.json")
+        sh(f"rsync -a --exclude __pycache__ {src}/{part}/ {snap}/{part}/")
+    shutil.copy(src + "/known_findings.json", snap + "/known_findings.json")
     for arg in sys.argv[1:]:
         name, src = arg.split("=", 1)
         extra = []
